@@ -43,7 +43,7 @@ harness_sync! {
 } }
 
 // H2: same key, same count => same partition (real xxhash32, keys up to 4 bytes)
-harness_sync! { #[kani::unwind(6)] fn c17_key_hash_deterministic() {
+harness_sync! { #[kani::unwind(6)] fn c17_key_hash_deterministic_t() {
     let count: u32 = 3;
     topic_with_count!(t, count);
     let len: usize = kani::any();
